@@ -1,0 +1,18 @@
+//go:build verif
+
+package badger
+
+// Exports for the Stream / Backup checks (C24, C25).
+
+// VerifRanges returns the key ranges DB.Ranges hands to the Stream producers, in key order
+// (before produceRanges re-sorts them by size): lefts[i], rights[i] = range i; nil = open.
+func (db *DB) VerifRanges(prefix []byte, numRanges int) (lefts, rights [][]byte) {
+	for _, r := range db.Ranges(prefix, numRanges) {
+		lefts = append(lefts, append([]byte(nil), r.left...))
+		rights = append(rights, append([]byte(nil), r.right...))
+	}
+	return
+}
+
+// VerifStreamReadTs exposes Stream.readTs (managed mode: the timestamp given to NewStreamAt).
+func (st *Stream) VerifStreamReadTs() uint64 { return st.readTs }
